@@ -29,7 +29,17 @@ Record qobs := mkObs {
   ob_ret : N                     (* rcode returned by ServeDNSWithRCODE *)
 }.
 
+(* free-running class cleaner-race: blocks of equal samples added between two recorded
+   instants, exports with the instants recorded around the call *)
+Inductive robs :=
+| RBlock (v n tb ta : Z)                           (* n samples of value v, added within [tb, ta] *)
+| RRead (tb ta : Z) (rle : list (Z * Z)) (open : option (Z * Z * Z))
+    (* Samples() called within [tb, ta], run-length encoded; open = (v, lo, hi): a block of
+       value v was growing meanwhile, between lo and hi of its samples existed *)
+| RGet (tb ta : Z) (present : bool) (mn mx av : Z). (* Stats.Get() within [tb, ta] *)
+
 Inductive case :=
+| CRace (raw : bool) (L : Z) (events : list robs)
 | CWin (raw : bool) (L : Z) (events : list wobs)
 | CQuery (q : qclass) (o : qobs)
 | CConc (threads : list (list (ckey * Z))) (exports : list (list (list (ckey * Z)))) (final : list (ckey * Z)).
@@ -102,6 +112,97 @@ Fixpoint win_spec (L : Z) (past : list wevent) (l : list wobs) : bool :=
           else negb present
       | _ => true
       end && win_spec L (past ++ [to_event o]) l'
+  end.
+
+(* ---------- cleaner race.
+   The window model is sequential (Model/SWindow.v); this class checks that running
+   against the real cleaner goroutine does not take the code outside it.  Blocks stand
+   for n consecutive Add calls; a block is live for an export when even its first sample
+   cannot have expired when the export returned (ta <= tb_block + L), expired when even
+   its last sample had expired when the export started (ta_block + L < tb); an export
+   that meets a block in neither state is undecided and not judged. *)
+Fixpoint rle_eqb (a b : list (Z * Z)) : bool :=
+  match a, b with
+  | [], [] => true
+  | (v, n) :: a', (w, m) :: b' => (v =? w) && (n =? m) && rle_eqb a' b'
+  | _, _ => false
+  end.
+
+(* observed = expected, possibly followed by k samples of the growing block, lo <= k <= hi *)
+Definition rle_matches (expected observed : list (Z * Z)) (open : option (Z * Z * Z)) : bool :=
+  match open with
+  | None => rle_eqb expected observed
+  | Some (v, lo, hi) =>
+      ((lo <=? 0) && rle_eqb expected observed)
+      || existsb (fun k => rle_eqb (expected ++ [(v, k)]) observed)
+                 (match rev observed with (w, k) :: _ => if (w =? v) && (lo <=? k) && (k <=? hi) && (0 <? k) then [k] else [] | [] => [] end)
+  end.
+
+Definition blocks_triple (bl : list (Z * Z)) : Z * Z * Z :=
+  match bl with
+  | [] => (0, 0, 0)
+  | (v, _) :: r =>
+      (list_min v (map fst r), list_max v (map fst r),
+       Z.quot (list_sum (map (fun b => fst b * snd b) bl)) (list_sum (map snd bl)))
+  end.
+
+(* the blocks of the history that are live at an export within [tb, ta]; None = undecided *)
+Fixpoint live_blocks (L tb ta : Z) (past : list robs) : option (list (Z * Z)) :=
+  match past with
+  | [] => Some []
+  | RBlock v n btb bta :: past' =>
+      match live_blocks L tb ta past' with
+      | None => None
+      | Some r =>
+          if ta <=? btb + L then Some (if 0 <? n then (v, n) :: r else r)
+          else if bta + L <? tb then Some r
+          else None
+      end
+  | _ :: past' => live_blocks L tb ta past'
+  end.
+
+Fixpoint race_spec (L : Z) (past : list robs) (l : list robs) : bool :=
+  match l with
+  | [] => true
+  | o :: l' =>
+      match o with
+      | RRead tb ta obs open =>
+          match live_blocks L tb ta past with
+          | Some exp => rle_matches exp obs open
+          | None => true
+          end
+      | RGet tb ta present mn mx av =>
+          match live_blocks L tb ta past with
+          | Some exp => present && triple_eqb (blocks_triple exp) mn mx av
+          | None => true
+          end
+      | RBlock _ _ _ _ => true
+      end && race_spec L (past ++ [o]) l'
+  end.
+
+(* the sequential model lifted to blocks: state = blocks with the expiry instants of their
+   first and last sample; an export drops the leading blocks that are entirely expired *)
+Fixpoint drop_blocks (tb : Z) (st : list (Z * Z * Z * Z)) : list (Z * Z * Z * Z) :=
+  match st with
+  | (v, n, ef, el) :: st' => if el <? tb then drop_blocks tb st' else st
+  | [] => []
+  end.
+Definition decided (ta : Z) (st : list (Z * Z * Z * Z)) : bool :=
+  forallb (fun b => let '(_, _, ef, _) := b in ta <=? ef) st.
+Definition block_vals (st : list (Z * Z * Z * Z)) : list (Z * Z) :=
+  flat_map (fun b => let '(v, n, _, _) := b in if 0 <? n then [(v, n)] else []) st.
+
+Fixpoint race_model (L : Z) (st : list (Z * Z * Z * Z)) (l : list robs) : bool :=
+  match l with
+  | [] => true
+  | RBlock v n tb ta :: l' => race_model L (st ++ [(v, n, tb + L, ta + L)]) l'
+  | RRead tb ta obs open :: l' =>
+      let st' := drop_blocks tb st in
+      (if decided ta st' then rle_matches (block_vals st') obs open else true) && race_model L st' l'
+  | RGet tb ta present mn mx av :: l' =>
+      let st' := drop_blocks tb st in
+      (if decided ta st' then present && triple_eqb (blocks_triple (block_vals st')) mn mx av else true)
+      && race_model L st' l'
   end.
 
 (* ---------- queries *)
@@ -222,6 +323,7 @@ Definition conc_spec (threads : list (list (ckey * Z))) (exports : list (list (l
 (* ---------- the two relations *)
 Definition model_ok (c : case) : bool :=
   match c with
+  | CRace _ L ev => race_model L [] ev
   | CWin true L ev => monob ev && win_model L [] ev
   | CWin false L ev => monob ev && stats_model L None ev
   | CQuery q o => query_model q o
@@ -230,6 +332,7 @@ Definition model_ok (c : case) : bool :=
 
 Definition spec_ok (c : case) : bool :=
   match c with
+  | CRace _ L ev => (0 <? L) && race_spec L [] ev
   | CWin _ L ev => monob ev && (0 <? L) && win_spec L [] ev
   | CQuery q o => query_spec (q_qtype q) (q_reader_ok q) (q_cache_on q) (q_loc q) o
   | CConc th ex fin => conc_spec th ex fin
@@ -240,7 +343,8 @@ Inductive mout :=
 | MQuery (o : outcome)
 | MWin (state : window)
 | MStats (state : wstate)
-| MConc (final : cmap).
+| MConc (final : cmap)
+| MRace (blocks : list (Z * Z * Z * Z)).   (* (value, count, first expiry, last expiry) left at the end *)
 
 Definition model_out (c : case) : mout :=
   match c with
@@ -248,4 +352,9 @@ Definition model_out (c : case) : mout :=
   | CWin false L ev => MStats (sexec L (map to_event ev))
   | CQuery q _ => MQuery (serve q)
   | CConc th _ _ => MConc (fst (crun [] (map to_op (concat th))))
+  | CRace _ L ev => MRace (fold_left (fun st o => match o with
+                                                  | RBlock v n tb ta => st ++ [(v, n, tb + L, ta + L)]
+                                                  | RRead tb _ _ _ => drop_blocks tb st
+                                                  | RGet tb _ _ _ _ _ => drop_blocks tb st
+                                                  end) ev [])
   end.
